@@ -4,5 +4,5 @@ Require Extraction.
 Require Import ExtrOcamlBasic.
 From DV Require Import Lib.Base Activation.Activation Activation.Helper.
 Extraction Language OCaml.
-Extraction "model_activation.ml" init step run wf_event pending_sids std_cfg helper shell_parse desktop_load get_string
+Extraction "model_activation.ml" start step run wf_event pending_sids std_cfg helper shell_parse desktop_load get_string
   SECTION KEY_NAME KEY_EXEC KEY_USER.
